@@ -86,7 +86,9 @@ def tTag (c : Ctx) (s : Bytes) : Ctx × Nat :=
       let st := if memKey specialElements c.elemName then State.specialBody else State.text
       let ret : Ctx := { state := st, elemName := c.elemName, elemNames := c.elemNames,
                          scriptType := c.scriptType, linkRel := c.linkRel }
-      let ret := if c.elemName != [] && memKey voidElements c.elemName then
+      -- a conditional element name leaves the element context only if every candidate is void
+      let allVoid := c.elemNames.all fun n => memKey voidElements n
+      let ret := if c.elemName != [] && memKey voidElements c.elemName && allVoid then
           { ret with elemName := [], elemNames := [], scriptType := [], linkRel := [] } else ret
       (ret, i + 1)
     else
